@@ -218,8 +218,15 @@ func (a *authRun) end(ac *aconn, mayWait bool) {
 	}
 	ac.cl.fin()
 	limit := a.timeout + waitStep
-	if !waitCh(rec.closedDone, limit) {
-		fatal("connection %d was not closed within %v", rec.id, limit)
+	if !waitCh(rec.closedDone, a.timeout+500*time.Millisecond) {
+		// An accepted REPLAY of another connection's client stream carries that connection's request: if it reached the
+		// fake target before the original did, it is the one held back until the original's FirstWrite step.  Let every
+		// target answer now (the original then merely gets its response earlier than scheduled).
+		a.s.openAllGates()
+		a.forms["(target gates opened early for a replayed request)"]++
+		if !waitCh(rec.closedDone, limit) {
+			fatal("connection %d was not closed within %v", rec.id, limit)
+		}
 	}
 	waitCh(rec.rdDone, waitStep)
 	rec.mu.Lock()
